@@ -582,7 +582,13 @@ func (fr *Frame) applyContract(st *State, ctr *Contract, name string, sig *types
 	for _, cl := range ctr.Clauses {
 		switch cl.Kind {
 		case "ensures":
+			wasDead := st.dead
 			st.assume(env.evalBool(cl.Expr))
+			if st.dead && !wasDead && fr.dry == nil {
+				// a satisfiable pre-state must not be killed by a callee's postcondition: the contract
+				// contradicts its own frame (e.g. a ghost variable missing from modifies)
+				fail("contract of %s is contradictory at its call site in %s: clause %q cannot hold with the declared modifies", short, fr.fn.Name(), cl.Src)
+			}
 		case "set":
 			env.assign(cl.Exprs[0], env.eval(cl.Expr))
 		}
